@@ -11,4 +11,15 @@ for fn in sorted(os.listdir(os.path.join(V, "findings.d"))):
 items.sort(key=lambda e: (e.get("property", ""), e.get("status", ""), e.get("class", e.get("commit", ""))))
 json.dump({"_comment": "status=finding: genuine defect recorded, not repaired - suppresses exactly the oracle class named; status=fixed: repaired by the named /repo commit - suppresses nothing",
            "findings": items}, open(os.path.join(V, "known_findings.json"), "w"), indent=1)
+def cell(t, n):
+    t = " ".join(str(t).split()).replace("|", "/")
+    return t if len(t) <= n else t[: n - 1] + "…"
+rows = ["| id | property | status | commit / oracle class | what fails |", "|---|---|---|---|---|"]
+for e in sorted(items, key=lambda e: (e["status"] != "fixed", e.get("property", ""), e.get("id", ""))):
+    rows.append(f"| {e.get('id','')} | {e.get('property','')} | {e['status']} | {cell(e.get('commit','')[:10] if e['status']=='fixed' else '`'+e.get('class','')+'`', 60)} | {cell(e.get('what',''), 330)} |")
+dp = os.path.join(V, "DESIGN.md")
+d = open(dp).read()
+a = d.index("<!-- FINDINGS-TABLE-BEGIN"); a = d.index("\n", a) + 1
+b = d.index("<!-- FINDINGS-TABLE-END")
+open(dp, "w").write(d[:a] + "\n".join(rows) + "\n" + d[b:])
 print(len(items), "entries:", sum(e["status"] == "finding" for e in items), "findings,", sum(e["status"] == "fixed" for e in items), "fixed")
